@@ -160,7 +160,8 @@ def c01(tier):
     cases += grams.random_grammars(seed(), nrand, prefix="rnd", sugar=0.3)
     cases += grams.random_grammars(seed() + 7919, nrand // 3, prefix="rnde", sugar=0.2, err=0.08)
     if not quick:
-        cases += grams.small_scope(max_rules=2, nterms=2, max_prods=2, max_rhs=2)
+        # a stride of the <= 2-rule family (the whole family goes through C04's in-process comparison)
+        cases += grams.small_scope(max_rules=2, nterms=2, max_prods=2, max_rhs=2, stride=41, offset=seed() % 41)
     # C01 is about precedence-free grammars
     for c in cases:
         c["bounds"] = False
